@@ -1,12 +1,20 @@
-"""Shared security rules (C03, C09): what Certificate.verify must have established, signature primitive discipline."""
+"""Shared security rules (C03, C09): what Certificate.verify must have established, signature primitive discipline.
+
+Also the semantic helpers the security rule modules share: canonical atoms of truth alternatives, quantifier
+recognition (`all(...)`, `not any(...)`, early-return loops), argument binding, guard/dominance of a call relative to
+an exit, and the body rules of the permission helpers Certificate.verify relies on.
+"""
 from __future__ import annotations
 
 import ast
+import copy
 import re
 
-from ..prog import AnalysisError, FuncInfo, dotted, unparse
+from ..prog import AnalysisError, ClassInfo, FuncInfo, dotted, unparse
+from ..flow import cond_atoms
 from ..truth import Truth
 from ..match import pretty
+from .. import sem
 
 CERT = "security.certificate.Certificate"
 
@@ -24,6 +32,609 @@ def has_re(alt: dict, pattern: str, pol: bool = True) -> bool:
     return any(re.fullmatch(pattern, norm(k)) and v is pol for k, v in alt.items() if isinstance(v, bool))
 
 
+# --------------------------------------------------------------------------------------------
+# small semantic helpers
+# --------------------------------------------------------------------------------------------
+def parse(src: str) -> ast.AST:
+    return ast.parse(src, mode="eval").body
+
+
+def alt_nodes(alt: dict) -> list:
+    """(node, polarity) of every fact of a truth alternative (keys are expression texts)."""
+    out = []
+    for k, v in alt.items():
+        if not isinstance(v, bool) or k.startswith("<"):
+            continue
+        try:
+            out.append((parse(k), v))
+        except SyntaxError:
+            continue
+    return out
+
+
+def alt_atoms(alt: dict) -> set:
+    """Canonical atoms (sem) of a truth alternative."""
+    out = set()
+    for n, v in alt_nodes(alt):
+        out.update(sem.atoms(n, v))
+    return out
+
+
+def holds(atoms: set, src: str, pol: bool = True) -> bool:
+    return sem.holds(atoms, src, pol)
+
+
+def peel(e: ast.AST) -> ast.AST:
+    """Strip wrappers that keep the truth value: bool(x), `True if x else False`, `not not x`."""
+    while True:
+        if isinstance(e, ast.Call) and dotted(e.func) == "bool" and len(e.args) == 1 and not e.keywords:
+            e = e.args[0]
+            continue
+        if isinstance(e, ast.IfExp) and isinstance(e.body, ast.Constant) and e.body.value is True and \
+                isinstance(e.orelse, ast.Constant) and e.orelse.value is False:
+            e = e.test
+            continue
+        if isinstance(e, ast.UnaryOp) and isinstance(e.op, ast.Not) and isinstance(e.operand, ast.UnaryOp) \
+                and isinstance(e.operand.op, ast.Not):
+            e = e.operand.operand
+            continue
+        return e
+
+
+_TOK = re.compile(r"^(.+)@(\d+)$")
+
+
+def keepv(node: ast.AST) -> ast.AST:
+    """Copy of `node` whose version tokens (`x@7`) survive sem's version stripping (two loop variables of the same
+    name stay distinct)."""
+    n = copy.deepcopy(node)
+    for x in ast.walk(n):
+        if isinstance(x, ast.Name) and "@" in x.id:
+            x.id = x.id.replace("@", "__v")
+    return n
+
+
+def vatoms(fl, node: ast.AST) -> set:
+    """Canonical guard atoms in force at `node`, locals expanded, version tokens kept."""
+    out = set()
+    for f in fl.state_at(node).facts:
+        if f.kind == "cond":
+            out.update(sem.atoms(keepv(f.xnode), f.pol))
+    return out
+
+
+def for_def(fl, name: str):
+    """DefInfo of a loop variable given its version token (`elem@12`), else None."""
+    m = _TOK.match(name)
+    if not m:
+        return None
+    d = fl.defs.get(int(m.group(2)))
+    return d if d is not None and d.kind == "for" and d.extra is not None else None
+
+
+def for_iter(fl, d) -> ast.AST:
+    """The (expanded) expression a loop variable iterates over."""
+    return fl.expand(d.extra, fl.state_at(d.stmt))
+
+
+def expand_safe(fl, expr: ast.AST, st) -> ast.AST:
+    """fl.expand, but names bound by a comprehension inside `expr` are not mistaken for locals of the function."""
+    e = copy.deepcopy(expr)
+    bound = set()
+    for n in ast.walk(e):
+        if isinstance(n, ast.comprehension):
+            for t in ast.walk(n.target):
+                if isinstance(t, ast.Name):
+                    bound.add(t.id)
+    if bound:
+        for n in ast.walk(e):
+            if isinstance(n, ast.Name) and n.id in bound:
+                n.id = n.id + "__c"
+    return fl.expand(e, st)
+
+
+def unwrap_collection(e: ast.AST) -> ast.AST:
+    """list(x) / tuple(x) / set(x) / frozenset(x) / sorted(x) -> x (same elements)."""
+    while isinstance(e, ast.Call) and dotted(e.func) in ("list", "tuple", "set", "frozenset", "sorted") \
+            and len(e.args) == 1 and not e.keywords:
+        e = e.args[0]
+    return e
+
+
+def quantified(node: ast.AST, pol: bool = True):
+    """`all(E for x in I)` / `not any(E for x in I)` and their duals.
+
+    -> (kind, var, iter, elt, elt_pol, filters) with kind 'forall' | 'exists': the element condition is `elt` taken with
+    polarity `elt_pol`; `filters` are the comprehension's `if` clauses (they weaken a forall, strengthen an exists)."""
+    node = peel(node)
+    while isinstance(node, ast.UnaryOp) and isinstance(node.op, ast.Not):
+        node, pol = peel(node.operand), not pol
+    if not (isinstance(node, ast.Call) and dotted(node.func) in ("all", "any") and len(node.args) == 1 and not node.keywords):
+        return None
+    g = node.args[0]
+    if not isinstance(g, (ast.GeneratorExp, ast.ListComp, ast.SetComp)) or len(g.generators) != 1:
+        return None
+    gen = g.generators[0]
+    if not isinstance(gen.target, ast.Name) or gen.is_async:
+        return None
+    fn = dotted(node.func)
+    if fn == "all":
+        kind, elt_pol = ("forall", True) if pol else ("exists", False)
+    else:
+        kind, elt_pol = ("exists", True) if pol else ("forall", False)
+    return kind, gen.target.id, gen.iter, g.elt, elt_pol, list(gen.ifs)
+
+
+def block_of(fl, stmt: ast.stmt):
+    """(statement list holding `stmt`, index) or (None, -1)."""
+    par = fl.parent.get(id(stmt))
+    if par is None:
+        par = fl.fi.node
+    for fld in ("body", "orelse", "finalbody"):
+        lst = getattr(par, fld, None)
+        if isinstance(lst, list):
+            for i, x in enumerate(lst):
+                if x is stmt:
+                    return lst, i
+    return None, -1
+
+
+def loop_forall(fl, fi, ret: ast.Return):
+    """`for x in I: if T: return <falsy>` immediately followed by `return <truthy constant>` (the statement `ret`).
+
+    -> (var token, expanded iter, T, False) meaning: forall x in I: not T; else None."""
+    lst, i = block_of(fl, ret)
+    if lst is None or i == 0:
+        return None
+    loop = lst[i - 1]
+    if not isinstance(loop, ast.For) or loop.orelse or not isinstance(loop.target, ast.Name) or len(loop.body) != 1:
+        return None
+    br = loop.body[0]
+    if not (isinstance(br, ast.If) and not br.orelse and len(br.body) == 1 and isinstance(br.body[0], ast.Return)):
+        return None
+    v = br.body[0].value
+    c = fl.prog.try_fold(fi.module, v, default="<nc>") if v is not None else None
+    if c == "<nc>" or c:
+        return None
+    st_body = fl.state_at(br)
+    tok = fl.token(loop.target.id, st_body)
+    return tok, fl.expand(loop.iter, fl.state_at(loop)), fl.expand(br.test, st_body), False
+
+
+def bind_args(callee: FuncInfo, call: ast.Call) -> dict:
+    """parameter name -> argument expression (receiver bound to the first parameter of a method)."""
+    params = callee.params
+    off = 0
+    out = {}
+    if callee.kind in ("method", "classmethod", "property") and params:
+        off = 1
+        if callee.kind == "method" and isinstance(call.func, ast.Attribute):
+            out[params[0]] = call.func.value
+    for i, a in enumerate(call.args):
+        if isinstance(a, ast.Starred):
+            break
+        if i + off < len(params):
+            out[params[i + off]] = a
+    kwonly = [a.arg for a in callee.node.args.kwonlyargs]
+    for kw in call.keywords:
+        if kw.arg and (kw.arg in params or kw.arg in kwonly):
+            out[kw.arg] = kw.value
+    return out
+
+
+def only_if_ancestors(fl, node: ast.AST, stop: ast.AST = None):
+    """Statements enclosing `node` up to the function (or `stop`); None when one of them is a loop / try (the node may
+    run zero or many times, or be skipped by an exception, independent of its guards)."""
+    chain = []
+    cur = node if isinstance(node, ast.stmt) else fl.stmt_of.get(id(node))
+    while cur is not None and cur is not fl.fi.node and cur is not stop:
+        chain.append(cur)
+        cur = fl.parent.get(id(cur))
+        while cur is not None and not isinstance(cur, (ast.stmt, ast.ExceptHandler)) and cur is not fl.fi.node:
+            cur = fl.parent.get(id(cur))
+    for c in chain[1:]:
+        if not isinstance(c, (ast.If, ast.With)):
+            return None
+    return chain
+
+
+def runs_before(fl, node: ast.AST, exit_stmt: ast.stmt) -> bool:
+    """Every path reaching `exit_stmt` has passed the statement holding `node` whenever that statement's guards held:
+    an enclosing statement of `node` (through `if`/`with` only) is an earlier sibling of `exit_stmt` or of one of its
+    enclosing statements."""
+    chain = only_if_ancestors(fl, node)
+    if chain is None:
+        return False
+    anc = []
+    cur = exit_stmt
+    while cur is not None and cur is not fl.fi.node:
+        if isinstance(cur, ast.stmt):
+            anc.append(cur)
+        cur = fl.parent.get(id(cur))
+    for a in chain:
+        la, ia = block_of(fl, a)
+        if la is None:
+            continue
+        for e in anc:
+            le, ie = block_of(fl, e)
+            if le is la and ia < ie:
+                return True
+    return False
+
+
+def guard_atoms(fl, node: ast.AST, expanded: bool = True) -> set:
+    """sem atoms in force where `node` is evaluated (includes short-circuit / conditional-expression guards)."""
+    return sem.facts(fl, node, expanded)
+
+
+# --------------------------------------------------------------------------------------------
+# permission helpers of Certificate: what their bodies must mean
+# --------------------------------------------------------------------------------------------
+def is_issue_permissions(e: ast.AST, owner: str) -> bool:
+    """`e` is the certIssuePermissions sequence of `<owner>`'s ToBeSignedCertificate."""
+    base = f"{owner}.certificate['toBeSigned']"
+    return any(sem.same(e, f) for f in (f"{base}['certIssuePermissions']", f"{base}.get('certIssuePermissions', [])",
+                                        f"{base}.get('certIssuePermissions', ())"))
+
+
+def _choice_is(atoms: set, subject: ast.AST, value: str) -> bool:
+    """`subject == value` is among the atoms (also as a one-element membership test)."""
+    sx = unparse(subject)
+    for src in (f"{sx} == {value!r}", f"{sx} in ({value!r},)", f"{sx} in [{value!r}]", f"{sx} in {{{value!r}}}"):
+        if sem.holds(atoms, src):
+            return True
+    return False
+
+
+def _name_iter(fl, name: str, comp_iters: dict):
+    """Expanded iterable a loop / comprehension variable ranges over (None when `name` is not such a variable)."""
+    if name in comp_iters:
+        return comp_iters[name]
+    d = for_def(fl, name)
+    return for_iter(fl, d) if d is not None else None
+
+
+def _sub(e: ast.AST, key):
+    """e == X[key] with a constant key -> X else None."""
+    if isinstance(e, ast.Subscript) and isinstance(e.slice, ast.Constant) and e.slice.value == key:
+        return e.value
+    return None
+
+
+def _explicit_psid(fl, elt: ast.AST, atoms: set, comp_iters: dict, owner: str):
+    """`elt` (expanded) is E['psid'] where E ranges over P['subjectPermissions'][1], P ranges over <owner>'s
+    certIssuePermissions, under the guard P['subjectPermissions'][0] == 'explicit'.  -> (ok, why)"""
+    e = _sub(elt, "psid")
+    if not isinstance(e, ast.Name):
+        return False, f"collects `{pretty(unparse(elt))}` (not the psid of a listed permission)"
+    it_e = _name_iter(fl, e.id, comp_iters)
+    if it_e is None:
+        return False, f"`{pretty(e.id)}` is not an element of a permission list"
+    sp = _sub(it_e, 1)
+    p = _sub(sp, "subjectPermissions") if sp is not None else None
+    if not isinstance(p, ast.Name):
+        return False, f"psids are taken from `{pretty(unparse(it_e))}` (not the explicit list subjectPermissions[1] of an issuing permission)"
+    it_p = _name_iter(fl, p.id, comp_iters)
+    if it_p is None or not is_issue_permissions(it_p, owner):
+        return False, (f"permission groups are taken from `{pretty(unparse(it_p)) if it_p is not None else p.id}` "
+                       f"(must be {owner}'s certIssuePermissions)")
+    subj = keepv(ast.Subscript(value=ast.Subscript(value=p, slice=ast.Constant("subjectPermissions"), ctx=ast.Load()),
+                               slice=ast.Constant(0), ctx=ast.Load()))
+    if not _choice_is(atoms, subj, "explicit"):
+        return False, "psids are collected without the guard subjectPermissions[0] == 'explicit'"
+    return True, "explicit psids of the certIssuePermissions"
+
+
+def _comp_sources(fl, comp: ast.AST, outer_atoms: set, owner: str):
+    """Check a comprehension producing psids: [(ok, why)]"""
+    iters, atoms = {}, set(outer_atoms)
+    for g in comp.generators:
+        if not isinstance(g.target, ast.Name):
+            return [(False, "comprehension with a non-name target")]
+        iters[g.target.id] = g.iter
+        for c in g.ifs:
+            atoms.update(sem.atoms(keepv(c), True))
+    return [_explicit_psid(fl, comp.elt, atoms, iters, owner)]
+
+
+def issuable_psids_body(ctx, fi: FuncInfo, owner: str = "self"):
+    """Every element of the list `fi` returns is an explicit certIssuePermissions PSID of `owner`.  -> (ok, detail)
+
+    Decided by provenance: the returned list starts empty and only receives E['psid'] for E in
+    P['subjectPermissions'][1], P in owner.certificate['toBeSigned']['certIssuePermissions'], guarded by
+    P['subjectPermissions'][0] == 'explicit' (append in nested loops, extend / += / return of a comprehension)."""
+    fl = ctx.flows.get(fi)
+    rets = [(s, st) for k, s, st in fl.exits if k == "return"]
+    if not rets or any(k == "fall" for k, s, st in fl.exits):
+        return False, "no return / falls off the end"
+    problems, n_src = [], 0
+    for s, st in rets:
+        v = s.value
+        if isinstance(v, ast.Name):
+            var = v.id
+            for d in fl.reaching(var, st):
+                val = d.value
+                empty = isinstance(val, (ast.List, ast.Tuple)) and not val.elts or \
+                    (isinstance(val, ast.Call) and dotted(val.func) == "list" and not val.args and not val.keywords)
+                if d.kind != "assign" or not empty:
+                    problems.append(f"the returned list starts from `{pretty(unparse(val)) if val is not None else d.kind}` "
+                                    f"(line {getattr(d.stmt, 'lineno', '?')}), not from an empty list")
+            for n in ast.walk(fi.node):
+                if isinstance(n, ast.AugAssign) and isinstance(n.target, ast.Name) and n.target.id == var:
+                    src = unwrap_collection(expand_safe(fl, n.value, fl.state_at(n)))
+                    if isinstance(n.op, ast.Add) and isinstance(src, (ast.ListComp, ast.GeneratorExp)) and only_if_or_for(fl, n):
+                        for ok, why in _comp_sources(fl, src, vatoms(fl, n), owner):
+                            n_src += 1
+                            if not ok:
+                                problems.append(why)
+                    else:
+                        problems.append(f"`{unparse(n)[:60]}` adds elements of unknown origin")
+                if not (isinstance(n, ast.Name) and n.id == var and isinstance(n.ctx, ast.Load)):
+                    continue
+                par = fl.parent.get(id(n))
+                gp = fl.parent.get(id(par)) if par is not None else None
+                if isinstance(par, ast.Return):
+                    continue
+                if isinstance(par, ast.Attribute) and isinstance(gp, ast.Call) and gp.func is par and len(gp.args) == 1 \
+                        and not gp.keywords and par.attr in ("append", "extend"):
+                    stc = fl.state_at(gp)
+                    if par.attr == "append":
+                        n_src += 1
+                        ok, why = _explicit_psid(fl, fl.expand(gp.args[0], stc), vatoms(fl, gp), {}, owner)
+                        if not ok:
+                            problems.append(why)
+                        continue
+                    src = unwrap_collection(expand_safe(fl, gp.args[0], stc))
+                    if isinstance(src, (ast.ListComp, ast.GeneratorExp)):
+                        for ok, why in _comp_sources(fl, src, vatoms(fl, gp), owner):
+                            n_src += 1
+                            if not ok:
+                                problems.append(why)
+                        continue
+                    problems.append(f"extends the list with `{pretty(unparse(src))[:80]}`")
+                    continue
+                problems.append(f"the returned list is used in `{unparse(gp if gp is not None else par)[:70]}` (may receive other elements)")
+        else:
+            src = unwrap_collection(expand_safe(fl, v, st)) if v is not None else None
+            if isinstance(src, (ast.ListComp, ast.GeneratorExp)):
+                for ok, why in _comp_sources(fl, src, vatoms(fl, s), owner):
+                    n_src += 1
+                    if not ok:
+                        problems.append(why)
+            elif isinstance(src, (ast.List, ast.Tuple)) and not src.elts:
+                pass
+            else:
+                problems.append(f"returns `{pretty(unparse(src))[:80] if src is not None else None}` (origin of the elements not recognised)")
+    if not problems and n_src == 0:
+        problems.append("no element source found")
+    problems = sorted(set(problems))
+    return not problems, ("collects only explicit certIssuePermissions PSIDs" if not problems else "; ".join(problems)[:400])
+
+
+def only_if_or_for(fl, node: ast.AST) -> bool:
+    """enclosing statements are if / for / with only (no try: a swallowed exception could skip or repeat nothing relevant)."""
+    cur = fl.parent.get(id(node if isinstance(node, ast.stmt) else fl.stmt_of.get(id(node))))
+    while cur is not None and cur is not fl.fi.node:
+        if isinstance(cur, (ast.stmt, ast.ExceptHandler)) and not isinstance(cur, (ast.If, ast.For, ast.With)):
+            return False
+        cur = fl.parent.get(id(cur))
+    return True
+
+
+def has_all_body(ctx, fi: FuncInfo = None, owner: str = "self"):
+    """certificate_has_all_permissions answers truthy only when some certIssuePermissions entry of `owner` has
+    subjectPermissions[0] == 'all'.  -> (ok, detail)"""
+    P = ctx.prog
+    fi = fi or P.func(f"{CERT}.certificate_has_all_permissions")
+    fl = ctx.flows.get(fi)
+    t = Truth(P, ctx.flows)
+    exits = t.exits(fi, "truthy")
+    if not exits:
+        return False, "no truthy exit"
+    problems = []
+    for s, st, xv in exits:
+        xv = peel(xv)
+        c = P.try_fold(fi.module, xv, default="<nc>")
+        found = False
+        cands = []      # (atoms, comprehension iters) in which an `== 'all'` test on an issuing permission must be found
+        if c != "<nc>":
+            cands.append((vatoms(fl, s), {}))
+            for f in st.facts:
+                if f.kind == "cond":
+                    q = quantified(f.xnode, f.pol)
+                    if q and q[0] == "exists":
+                        cands.append((_q_atoms(q), {q[1]: q[2]}))
+        else:
+            q = quantified(expand_safe(fl, s.value, st), True)
+            if q and q[0] == "exists":
+                cands.append((_q_atoms(q), {q[1]: q[2]}))
+        for atoms, iters in cands:
+            names = set(iters)
+            for f in st.facts:
+                for n in ast.walk(f.xnode):
+                    if isinstance(n, ast.Name) and for_def(fl, n.id) is not None:
+                        names.add(n.id)
+            for nm in names:
+                it = _name_iter(fl, nm, iters)
+                if it is None or not is_issue_permissions(it, owner):
+                    continue
+                subj = keepv(parse(f"X['subjectPermissions'][0]"))
+                for x in ast.walk(subj):
+                    if isinstance(x, ast.Name) and x.id == "X":
+                        x.id = nm.replace("@", "__v")
+                if _choice_is(atoms, subj, "all"):
+                    found = True
+        if not found:
+            problems.append(f"line {s.lineno}: returns `{pretty(unparse(xv))[:60]}` without an established "
+                            f"subjectPermissions[0] == 'all' on an entry of {owner}'s certIssuePermissions")
+    return not problems, ("truthy only for an issuing permission of choice 'all'" if not problems else "; ".join(problems)[:400])
+
+
+def _q_atoms(q) -> set:
+    kind, var, it, elt, elt_pol, filters = q
+    out = set(sem.atoms(keepv(elt), elt_pol))
+    if kind == "exists":
+        for c in filters:
+            out.update(sem.atoms(keepv(c), True))
+    return out
+
+
+def containment_of(node: ast.AST, pol: bool = True):
+    """`node` (with polarity) states that every element of N is in S -> (N, S) (collection wrappers removed) else None.
+
+    Forms: all(x in S for x in N), not any(x not in S for x in N), set(N) <= set(S), set(N).issubset(S),
+    not (set(N) - set(S))."""
+    q = quantified(node, pol)
+    if q is not None:
+        kind, var, it, elt, elt_pol, filters = q
+        if kind != "forall" or filters:
+            return None
+        at = cond_atoms(elt, elt_pol)
+        if len(at) != 1:
+            return None
+        c, p = at[0]
+        if p and isinstance(c, ast.Compare) and len(c.ops) == 1 and isinstance(c.ops[0], ast.In) and \
+                isinstance(c.left, ast.Name) and c.left.id == var:
+            S = unwrap_collection(c.comparators[0])
+            if not any(isinstance(n, ast.Name) and n.id == var for n in ast.walk(S)):
+                return unwrap_collection(it), S
+        return None
+    node = peel(node)
+    while isinstance(node, ast.UnaryOp) and isinstance(node.op, ast.Not):
+        node, pol = peel(node.operand), not pol
+
+    def is_set(e):
+        return isinstance(e, ast.Call) and dotted(e.func) in ("set", "frozenset") and len(e.args) == 1 and not e.keywords
+    if pol and isinstance(node, ast.Compare) and len(node.ops) == 1 and is_set(node.left) and is_set(node.comparators[0]):
+        if isinstance(node.ops[0], ast.LtE):
+            return unwrap_collection(node.left), unwrap_collection(node.comparators[0])
+        if isinstance(node.ops[0], ast.GtE):
+            return unwrap_collection(node.comparators[0]), unwrap_collection(node.left)
+    if pol and isinstance(node, ast.Call) and isinstance(node.func, ast.Attribute) and node.func.attr == "issubset" \
+            and is_set(node.func.value) and len(node.args) == 1 and not node.keywords:
+        return unwrap_collection(node.func.value), unwrap_collection(node.args[0])
+    if not pol and isinstance(node, ast.BinOp) and isinstance(node.op, ast.Sub) and is_set(node.left) and is_set(node.right):
+        return unwrap_collection(node.left), unwrap_collection(node.right)
+    return None
+
+
+def containment_function(ctx, fi: FuncInfo):
+    """`fi` returns truthy only when every element of one parameter is in another -> ((needed, allowed) | None, detail)."""
+    P = ctx.prog
+    fl = ctx.flows.get(fi)
+    t = Truth(P, ctx.flows)
+    exits = t.exits(fi, "truthy")
+    if not exits or any(k == "fall" for k, s, st in fl.exits):
+        return None, "no truthy exit"
+    roles = set()
+    for s, st, _ in exits:
+        xv = peel(expand_safe(fl, s.value, st))
+        c = P.try_fold(fi.module, xv, default="<nc>")
+        got = None
+        if c == "<nc>":
+            got = containment_of(xv, True)
+        else:
+            lf = loop_forall(fl, fi, s)
+            if lf is not None:
+                tok, it, test, _ = lf
+                at = cond_atoms(test, False)
+                if len(at) == 1 and at[0][1] and isinstance(at[0][0], ast.Compare) and isinstance(at[0][0].ops[0], ast.In) \
+                        and isinstance(at[0][0].left, ast.Name) and at[0][0].left.id == tok:
+                    got = (unwrap_collection(it), unwrap_collection(at[0][0].comparators[0]))
+            if got is None:
+                for f in st.facts:
+                    if f.kind == "cond":
+                        got = got or containment_of(f.xnode, f.pol)
+        if got is None:
+            return None, f"line {s.lineno}: returns `{pretty(unparse(xv))[:80]}`: not 'every requested element is among the allowed ones'"
+        N, S = got
+        if not (isinstance(N, ast.Name) and isinstance(S, ast.Name) and N.id in fi.params and S.id in fi.params and N.id != S.id):
+            return None, f"line {s.lineno}: containment of `{pretty(unparse(N))}` in `{pretty(unparse(S))}` is not between two parameters"
+        roles.add((N.id, S.id))
+    if len(roles) != 1:
+        return None, f"exits disagree on the roles {sorted(roles)}"
+    r = next(iter(roles))
+    return r, f"truthy only when every element of `{r[0]}` is in `{r[1]}`"
+
+
+def _helper(ctx, name: str):
+    P = ctx.prog
+    return P.func(f"{CERT}.{name}") if P.has_func(f"{CERT}.{name}") else None
+
+
+def containment_established(ctx, nodes: list, needed_src: str, allowed_src: str):
+    """Among (node, polarity) facts: the elements of `needed_src` are all in `allowed_src`, stated directly or through a
+    call of the repository's containment helper (whose body is then checked).  -> (ok, why)"""
+    why = "no containment fact"
+    for n, pol in nodes:
+        got = containment_of(n, pol)
+        if got is None and pol and isinstance(peel(n), ast.Call):
+            call = peel(n)
+            fname = (dotted(call.func) or "").split(".")[-1]
+            callee = _helper(ctx, fname) if fname == "check_all_requested_permissions_are_allowed" else None
+            if callee is not None:
+                roles, detail = containment_function(ctx, callee)
+                if roles is None:
+                    why = f"{fname}: {detail}"
+                    continue
+                b = bind_args(callee, call)
+                if roles[0] in b and roles[1] in b:
+                    got = (unwrap_collection(b[roles[0]]), unwrap_collection(b[roles[1]]))
+        if got is None:
+            continue
+        N, S = got
+        if sem.same(N, needed_src) and sem.same(S, allowed_src):
+            return True, "every needed permission is among the issuer's allowed ones"
+        why = f"containment of `{pretty(unparse(N))[:70]}` in `{pretty(unparse(S))[:70]}`"
+    return False, why
+
+
+def permission_containment(ctx, nodes: list, subject: str, issuer: str, _depth: int = 3):
+    """The facts establish: issuer may issue all, or needed(subject) within allowed(issuer); the helper bodies this
+    relies on are checked as part of the answer.  A disjunction among the facts counts when each member does.
+    -> (ok, why)"""
+    atoms = set()
+    for n, pol in nodes:
+        atoms.update(sem.atoms(n, pol))
+    if sem.holds(atoms, f"{issuer}.certificate_has_all_permissions()"):
+        ok, why = has_all_body(ctx)
+        return ok, "issuer may issue all" + ("" if ok else f" - but certificate_has_all_permissions: {why}")
+    ok, why = containment_established(ctx, nodes, f"{subject}.get_list_of_needed_permissions()",
+                                      f"{issuer}.get_list_of_allowed_persmissions()")
+    if ok:
+        al = _helper(ctx, "get_list_of_allowed_persmissions")
+        if al is None:
+            return False, "get_list_of_allowed_persmissions vanished"
+        ok2, why2 = issuable_psids_body(ctx, al)
+        return ok2, why + ("" if ok2 else f" - but get_list_of_allowed_persmissions: {why2}")
+    if _depth > 0:
+        for i, (n, pol) in enumerate(nodes):
+            n = peel(n)
+            if isinstance(n, ast.BoolOp) and ((isinstance(n.op, ast.Or) and pol) or (isinstance(n.op, ast.And) and not pol)):
+                rest = nodes[:i] + nodes[i + 1:]
+                res = [permission_containment(ctx, rest + cond_atoms(v, pol), subject, issuer, _depth - 1) for v in n.values]
+                if all(r[0] for r in res):
+                    return True, " or ".join(sorted({r[1] for r in res}))
+    return False, why
+
+
+def primitive_call(nodes: list, data_src: str, sig_src: str, key_src: str, recv: str = "backend") -> bool:
+    """A true fact `<recv>.verify_with_pk(data, signature, pk)` with the given arguments (positional or by keyword)."""
+    for n, pol in nodes:
+        n = peel(n)
+        if not (pol and isinstance(n, ast.Call) and isinstance(n.func, ast.Attribute) and n.func.attr == "verify_with_pk"
+                and sem.same(n.func.value, recv)):
+            continue
+        names = ["data", "signature", "pk"]
+        got = {names[i]: a for i, a in enumerate(n.args[:3])}
+        for kw in n.keywords:
+            if kw.arg in names:
+                got[kw.arg] = kw.value
+        if len(got) == 3 and sem.same(got["data"], data_src) and sem.same(got["signature"], sig_src) and sem.same(got["pk"], key_src):
+            return True
+    return False
+
+
 def cert_verify_conjuncts(ctx, rule: str):
     """Every way Certificate.verify can return True carries the full set of conjuncts."""
     P = ctx.prog
@@ -34,33 +645,36 @@ def cert_verify_conjuncts(ctx, rule: str):
         raise AnalysisError("Certificate.verify has no truthy exit")
     con = fi.short()
     n_issued = n_self = 0
+    tbs = "SECURITY_CODER.encode_ToBeSignedCertificate(self.certificate['toBeSigned'])"
+    sig = "self.certificate['signature']"
     for i, a in enumerate(alts):
-        issued = has(a, "self.certificate_is_issued()") or has(a, "self.certificate['issuer'][0]=='sha256AndDigest'")
-        selfs = has(a, "self.certificate_is_self_signed()") or has(a, "self.certificate['issuer'][0]=='self'")
-        sig_issuer = "backend.verify_with_pk(SECURITY_CODER.encode_ToBeSignedCertificate(self.certificate['toBeSigned']),self.certificate['signature'],self.issuer.certificate['toBeSigned']['verifyKeyIndicator'][1])"
-        sig_self = "backend.verify_with_pk(SECURITY_CODER.encode_ToBeSignedCertificate(self.certificate['toBeSigned']),self.certificate['signature'],self.certificate['toBeSigned']['verifyKeyIndicator'][1])"
-        kind = "issued" if has(a, sig_issuer) or (issued and not selfs) else ("self-signed" if selfs else "other")
+        nodes = alt_nodes(a)
+        at = alt_atoms(a)
+        issued = holds(at, "self.certificate_is_issued()") or holds(at, "self.certificate['issuer'][0]=='sha256AndDigest'")
+        selfs = holds(at, "self.certificate_is_self_signed()") or holds(at, "self.certificate['issuer'][0]=='self'")
+        sig_issuer = primitive_call(nodes, tbs, sig, "self.issuer.certificate['toBeSigned']['verifyKeyIndicator'][1]")
+        sig_self = primitive_call(nodes, tbs, sig, "self.certificate['toBeSigned']['verifyKeyIndicator'][1]")
+        kind = "issued" if sig_issuer or (issued and not selfs) else ("self-signed" if selfs else "other")
         disc = f"true-exit#{i}:{kind}"
         if kind == "issued":
             n_issued += 1
-            ctx.ob(rule, con, f"{disc}:signature-under-issuer-key", has(a, sig_issuer),
+            ctx.ob(rule, con, f"{disc}:signature-under-issuer-key", sig_issuer,
                    "returns True only after the signature over the encoded ToBeSignedCertificate verified under the ISSUER's key",
                    fi.loc)
             ctx.ob(rule, con, f"{disc}:issuer-correspondence",
-                   has(a, "self.certificate['issuer'][1]==self.issuer.as_hashedid8()"),
+                   holds(at, "self.certificate['issuer'][1]==self.issuer.as_hashedid8()"),
                    "returns True only when the certificate's issuer digest equals the issuer object's HashedId8", fi.loc)
-            perm = has(a, "self.issuer.certificate_has_all_permissions()") or \
-                has(a, "all((iteminself.issuer.get_list_of_allowed_persmissions()foriteminself.get_list_of_needed_permissions()))")
+            perm, why = permission_containment(ctx, nodes, "self", "self.issuer")
             ctx.ob(rule, con, f"{disc}:permission-containment", perm,
                    "returns True only when the subject's permissions are contained in the issuer's issuing permissions "
-                   "(or the issuer may issue all)", fi.loc)
-            ctx.ob(rule, con, f"{disc}:issuer-present", has(a, "self.issuer is None", False) or has(a, "self.issuer is not None"),
+                   f"(or the issuer may issue all): {why}", fi.loc)
+            ctx.ob(rule, con, f"{disc}:issuer-present", holds(at, "self.issuer is not None"),
                    "issuer object present", fi.loc)
         elif kind == "self-signed":
             n_self += 1
-            ctx.ob(rule, con, f"{disc}:signature-under-own-key", has(a, sig_self),
+            ctx.ob(rule, con, f"{disc}:signature-under-own-key", sig_self,
                    "self-signed: signature verified under the certificate's own verification key", fi.loc)
-            ctx.ob(rule, con, f"{disc}:marked-self", has(a, "self.certificate['issuer'][0]=='self'"),
+            ctx.ob(rule, con, f"{disc}:marked-self", holds(at, "self.certificate['issuer'][0]=='self'"),
                    "self-signed branch requires issuer == ('self', ...)", fi.loc)
         else:
             ctx.ob(rule, con, disc, False,
@@ -68,7 +682,7 @@ def cert_verify_conjuncts(ctx, rule: str):
                    f"own-key signature check: returns `{a.get('<return>', '?')[:80]}`", fi.loc)
         if kind in ("issued", "self-signed"):
             ctx.ob(rule, con, f"{disc}:key-type-consistent",
-                   has(a, "self.certificate['toBeSigned']['verifyKeyIndicator'][0]=='verificationKey'"),
+                   holds(at, "self.certificate['toBeSigned']['verifyKeyIndicator'][0]=='verificationKey'"),
                    "explicit verification key indicator required", fi.loc)
     if n_issued == 0 or n_self == 0:
         raise AnalysisError(f"Certificate.verify: true exits issued={n_issued} self-signed={n_self}; both kinds expected")
@@ -76,15 +690,19 @@ def cert_verify_conjuncts(ctx, rule: str):
     vs = P.func(f"{CERT}.verify_signature")
     fl = ctx.flows.get(vs)
     rets = [(s, st) for k, s, st in fl.exits if k == "return"]
+    prm = vs.params
     for j, (s, st) in enumerate(rets):
         in_handler = any(k == "handler" for _, k in fl.enclosing_handlers(s))
-        u = norm(pretty(unparse(fl.expand(s.value, st))))
+        x = peel(fl.expand(s.value, st)) if s.value is not None else ast.Constant(None)
+        c = P.try_fold(vs.module, x, default="<nc>")
+        u = pretty(unparse(x))
         if in_handler:
-            ctx.ob(rule, vs.short(), f"return#{j}:on-exception", u == "False",
+            ctx.ob(rule, vs.short(), f"return#{j}:on-exception", c != "<nc>" and not c,
                    f"verify_signature returns `{u}` from an exception handler (must be False)", f"{vs.module.rel}:{s.lineno}")
         else:
-            ok = u == "backend.verify_with_pk(SECURITY_CODER.encode_ToBeSignedCertificate(to_be_signed_certificate),signature,verification_key)"
-            ctx.ob(rule, vs.short(), f"return#{j}:primitive", ok or u == "False",
+            ok = (c != "<nc>" and not c) or (len(prm) >= 4 and primitive_call(
+                [(x, True)], f"SECURITY_CODER.encode_ToBeSignedCertificate({prm[-3]})", prm[-2], prm[-1], prm[-4]))
+            ctx.ob(rule, vs.short(), f"return#{j}:primitive", ok,
                    f"verify_signature returns `{u[:120]}`; must be the backend check over the encoded ToBeSignedCertificate",
                    f"{vs.module.rel}:{s.lineno}")
     return alts
